@@ -4,3 +4,15 @@ FUNCTIONS = ['packet.Packet.__init__', 'packet.Packet.encode', 'packet.Packet.de
 ASSUMPTIONS = []
 NOT_DECIDED = []
 TRUSTED = []
+LEVEL_TEXT = ('every path of Packet.__init__/encode/decode is verified against contracts whose '
+              'postconditions are the spec functions wire/dec_* written from the property '
+              'statement; the round trip is a lemma over those spec functions; all inputs, no bound')
+LEVEL_NOTE = ('assumed: library contracts of json.dumps/loads (L-JSON), base64 (RFC 4648), '
+              'int()/str(), utf-8; Python semantics table of pyvc (DESIGN 1.2); text whose JSON '
+              'parse exhausts the recursion limit is excluded from the round trip')
+ASSUMPTIONS = ['L-JSON: loads(dumps(j)) == j, dumps output has no control characters',
+               'RFC 4648: b64decode(b64encode(b)) == b',
+               'int() of a one-character string is 0..9 when it succeeds',
+               'payload text that makes json.loads raise RecursionError is excluded from the round-trip clause',
+               'NaN/Infinity JSON literals compare by identity of the parsed value, not float equality']
+NOT_DECIDED = ['non-ASCII decimal digits as the type character are decoded to 0..9 (recorded, not flagged)']
